@@ -178,6 +178,7 @@ func parseExpressionLv1(p *ParserZH, cfg syntax.EqMarkConfig) syntax.Expression 
 	var parseTail func(syntax.Expression) syntax.Expression
 
 	parseTail = func(el syntax.Expression) syntax.Expression {
+		defer p.enterChain()()
 		if match, tk := p.tryConsume(TypeLogicOrW); match {
 			exprR := parseExpressionLv2(p, cfg)
 			finalExpr := &syntax.LogicExpr{
@@ -200,6 +201,7 @@ func parseExpressionLv2(p *ParserZH, cfg syntax.EqMarkConfig) syntax.Expression 
 	var parseTail func(syntax.Expression) syntax.Expression
 
 	parseTail = func(el syntax.Expression) syntax.Expression {
+		defer p.enterChain()()
 		if match, tk := p.tryConsume(TypeLogicAndW); match {
 			exprR := parseExpressionLv3(p, cfg)
 			finalExpr := &syntax.LogicExpr{
@@ -314,6 +316,7 @@ func ParseArithExpr(p *ParserZH) syntax.Expression {
 	var parseTail func(syntax.Expression) syntax.Expression
 
 	parseTail = func(el syntax.Expression) syntax.Expression {
+		defer p.enterChain()()
 		if match, tk := p.tryConsume(TypePlus, TypeMinus); match {
 			exprR := parseArithMulDivExpr(p)
 
@@ -340,6 +343,7 @@ func parseArithMulDivExpr(p *ParserZH) syntax.Expression {
 	var parseTail func(syntax.Expression) syntax.Expression
 
 	parseTail = func(el syntax.Expression) syntax.Expression {
+		defer p.enterChain()()
 		if match, tk := p.tryConsume(TypeMultiply, TypeDivision, TypeIntDivMark, TypeModuloMark); match {
 			exprR := ParseMemberExpr(p)
 
@@ -415,6 +419,7 @@ func ParseMemberExpr(p *ParserZH) syntax.Expression {
 	}
 
 	memberTailParser = func(expr syntax.Expression) syntax.Expression {
+		defer p.enterChain()()
 		mExpr := &syntax.MemberExpr{}
 		// default rootType is RootTypeExpr
 		mExpr.RootType = syntax.RootTypeExpr
